@@ -228,7 +228,9 @@ pub fn main(args: &[String]) {
                         }
                     }
                     // bytes before the first and after the last affected statement
-                    let affected: Vec<&&Item> = stm.iter().filter(|x| inside(x)).collect();
+                    // (a statement under the listed end-position quirk is treated as inside by the binary: it is affected too)
+                    let quirk_e = |x: &Item| x.fm_end < x.stmt_end && x.fm_end <= b && b < x.stmt_end && x.start >= a;
+                    let affected: Vec<&&Item> = stm.iter().filter(|x| inside(x) || quirk_e(x)).collect();
                     let (pa, pb) = if affected.is_empty() { (src.len(), src.len()) } else { (affected.iter().map(|x| x.lead).min().unwrap(), affected.iter().map(|x| x.trail_end).max().unwrap()) };
                     let prefix_ok = (affected.is_empty() && b >= src.len() && o.trim_end() == src.trim_end()) || (o.as_bytes().len() >= pa && src.as_bytes()[..pa] == o.as_bytes()[..pa]);
                     let tail = &src.as_bytes()[pb..];
